@@ -374,8 +374,27 @@ def run(scenario, world):
                     prior_draws.append(np.array(v).flatten())
                     return v
                 main.prior_obj.sample = spy_prior
+            world.begin_op(None)
             with Intercept(preds) as ic:
                 res = call(draw, target, kind, args)
+            runs = list(world.solver_runs)
+            world.end_op()
+            # the dose rows of the table describe the regimen the model
+            # reports: it must be the one the simulation applied
+            if kind in ('pred', 'pp', 'cpp', 'cpred') and not is_exc(res):
+                from ..solver_stub import protocol_events
+                base = target._predictive_model if kind in ('pp', 'cpp') \
+                    else target
+                sub = call(lambda: base.get_submodels()['Mechanistic model'])
+                rep = call(lambda: protocol_events(sub.dosing_regimen()))
+                if not is_exc(rep):
+                    for r_ in runs:
+                        if r_['protocol'] != rep:
+                            raise Violation(
+                                'table.doses', 'not_the_applied_regimen',
+                                '%s: the simulation ran with %s, the model '
+                                'reports %s' % (kind, r_['protocol'], rep),
+                                step)
             if kind == 'prior':
                 del main.prior_obj.sample
             # reference: a fresh stack that has seen nothing
